@@ -87,7 +87,7 @@ def _real_cases(draw):
     sup = draw(_support(o["pos"] + o["neg"]))
     method, strat = draw(st.sampled_from(BUILTIN))
     ci = draw(st.sampled_from(CI_METHODS))
-    alpha = draw(st.floats(min_value=0.01, max_value=0.5))
+    alpha = draw(st.one_of(st.floats(min_value=0.01, max_value=0.5), st.floats(min_value=0.5, max_value=0.99)))
     return dict(o=o, sup=sup, method=method, strat=strat, ci=ci, alpha=alpha,
                 nb=draw(st.integers(5, 30)), seed=draw(gen.RNG_SEED),
                 x_axis=draw(st.sampled_from(["fpr", "fnr", "tpr", "tnr", "far", "frr"])))
@@ -116,7 +116,7 @@ def _ident_cases(draw):
     o = draw(_score_objects(max_size=12))
     sup = draw(_support(o["pos"] + o["neg"]))
     return dict(o=o, sup=sup, ci=draw(st.sampled_from(CI_METHODS)),
-                alpha=draw(st.sampled_from([0.01, 0.05, 0.3, 0.5])), nb=draw(st.integers(2, 4)),
+                alpha=draw(st.sampled_from([0.01, 0.05, 0.3, 0.5, 0.7, 0.95])), nb=draw(st.integers(2, 4)),
                 x_axis=draw(st.sampled_from(["fpr", "fnr", "tpr", "tnr"])))
 
 
@@ -192,7 +192,8 @@ def _exp_cases(draw):
     sup = draw(_support(o["pos"] + o["neg"], spanning=(fn == "fixed_width_band_ci")))
     method, strat = draw(st.sampled_from(BUILTIN))
     return dict(fn=fn, o=o, sup=sup, method=method, strat=strat, ci=draw(st.sampled_from(CI_METHODS)),
-                alpha=draw(st.floats(min_value=0.01, max_value=0.45)), nb=draw(st.integers(5, 20)),
+                alpha=draw(st.one_of(st.floats(min_value=0.01, max_value=0.5),
+                                     st.floats(min_value=0.5, max_value=0.99))), nb=draw(st.integers(5, 20)),
                 seed=draw(gen.RNG_SEED), identity=draw(st.sampled_from([False, False, True])))
 
 
@@ -218,6 +219,23 @@ def check_experimental(case):
     return dict(nontrivial=True, labels=labels)
 
 
+# -------------------------------------------------------------- clause: rule-of-three by class size
+def _size_cases(tier):
+    """Every class size n: the rule-of-three trigger compares a rate with 1/n and (n-1)/n, which is
+    sensitive to floating-point rounding for particular n only (cf. C03)."""
+    nmax = 400 if tier == "quick" else 3000
+    for n in range(1, nmax + 1):
+        h = min(n, 4)
+        hard = [1.0, 2.0, 3.0, 4.0][:h]
+        other = [0.5, 1.5, 2.5]
+        for orient in ("pos", "neg"):
+            o = dict(pos=hard if orient == "pos" else other, neg=other if orient == "pos" else hard,
+                     ep=(n - h) if orient == "pos" else 0, en=(n - h) if orient == "neg" else 0,
+                     sc=("pos", "neg")[n % 2], ec=("pos", "neg")[(n // 2) % 2], mode="grid")
+            yield dict(o=o, sup=dict(kind="nothing"), ci="quantile", alpha=(0.05, 0.5, 0.9)[n % 3], nb=2,
+                       x_axis="fpr", n=n)
+
+
 def _fwb_unbalanced(case):
     """D7a: fixed_width_band_ci cannot initialise its search when len(neg)/len(pos) < 1/16."""
     o = case["o"]
@@ -236,7 +254,7 @@ PROP = Prop(
     id="C16",
     rule=("Hypothesis: Scores with both classes non-empty (1-24 scores per class, ties or tie-free, "
           "easy counts 0..30, 4 configs), support given by fnr / fpr / both / thresholds / "
-          "nb_points / nothing, alpha in [0.01,0.5], CI method quantile/bc/bca, x_axis, built-in "
+          "nb_points / nothing, alpha in [0.01,0.99], CI method quantile/bc/bca, x_axis, built-in "
           "sampling configurations (5) under a np.random seed with 5-30 replicates, and the "
           "identity sampler. Oracles: all four band functions return; curve rates == the object's "
           "rates at the returned thresholds; bands of shape (n,2), NaN-free, lower<=upper; "
@@ -245,7 +263,10 @@ PROP = Prop(
           "fpr(threshold_at_fnr(fnr_i)), replaced by the rule-of-three interval exactly where the "
           "observed rate is exactly 0 or 1 (n = scored or all samples both accepted), band = min/max "
           "over all rectangles whose x-extent contains the point (double loop), atol 1e-12. "
-          "fixed_width_band_ci only on spanning supports (nb_points>=4 or all scores). "
+          "fixed_width_band_ci only on spanning supports (nb_points>=4 or all scores). Exhaustive "
+          "part: the closed form for every class size n = 1..400 (quick) / 1..3000 (thorough) in "
+          "either class (n-4 easy samples), because the rule-of-three trigger compares with 1/n and "
+          "(n-1)/n. alpha ranges over [0.01,0.99] for every function. "
           "Non-trivial = >=5 replicates (built-in); a support point with rate exactly 0/1 and one "
           "strictly inside (identity); every case (experimental)."),
     clauses=[
@@ -253,6 +274,9 @@ PROP = Prop(
                quick_shards=4, min_nontrivial=50, doc="well-formed bands, built-in samplers"),
         Clause("closed_form", check_identity, strategy=_ident_cases(), quick=150, thorough=5600,
                quick_shards=4, min_nontrivial=80, doc="identity sampler: envelope closed form"),
+        Clause("rule_of_three_sizes", check_identity, kind="enum", cases=_size_cases, quick_shards=4,
+               shards=16, min_nontrivial=100,
+               doc="closed form for every class size 1..400 (quick) / 1..3000 (thorough), all-scores support"),
         Clause("experimental", check_experimental, strategy=_exp_cases(), quick=100, thorough=4000,
                quick_shards=4, min_nontrivial=80, doc="the three experimental band functions"),
     ],
